@@ -11,7 +11,6 @@ import (
 	"testing"
 	"time"
 
-	"github.com/tstranex/u2f"
 )
 
 // TestVerifC06: `ca <mask> <method origin host tls cookie basic limiter>` ↦ outcome of the real checkAuth.
@@ -86,7 +85,7 @@ func vfDBDigest(t *testing.T, state *RuntimeState) string {
 func vfSeedProfiles(t *testing.T, state *RuntimeState) {
 	for _, u := range []string{"alice", "bob", "username"} {
 		profile := &userProfile{}
-		profile.U2fAuthData = map[int64]*u2fAuthData{1: {Enabled: true, Name: "tok", Registration: &u2f.Registration{}}}
+		profile.U2fAuthData = map[int64]*u2fAuthData{1: {Enabled: true, Name: "tok"}}
 		profile.TOTPAuthData = map[int64]*totpAuthData{1: {Enabled: true, Name: "totp", EncryptedSecret: [][]byte{[]byte("x")}}}
 		profile.WebauthnData = map[int64]*webauthAuthData{}
 		if err := state.SaveUserProfile(u, profile); err != nil {
